@@ -269,3 +269,65 @@ Theorem C17_prefix_free_refuted : exists h gens root jd l e1 e2 e3,
   proper_prefix (g_path e1) (g_path e2) /\ proper_prefix (g_path e2) (g_path e3).
 Proof. exact prefix_free_refuted. Qed.
 Print Assumptions C17_prefix_free_refuted.
+
+(* "the same configuration", fourth part: the identifier drops the elements of a list that are
+   configurations flagged as meta-parameters (setmeta(c, True)): L(l=[m, a]) with m flagged and
+   L(l=[a]) are one configuration, one job directory.  The walk numbers every element
+   (seal_edges = seal_edges_m no_meta, the code before fixes/C17-4.diff): a is placed at out/l/1 in
+   one and out/l/0 in the other.  seal_edges_m metaf numbers the unflagged elements 0, 1, ... and the
+   flagged ones "__meta__0", ... apart: a keeps its path                                        *)
+Theorem C17_meta_list_refuted :
+  exists metaf h h' gens root jd a,
+    metaf a = false /\
+    path_of a (generated esc_fix seal_edges h gens root jd) <> path_of a (generated esc_fix seal_edges h' gens root jd) /\
+    path_of a (generated esc_fix (seal_edges_m metaf) h gens root jd)
+    = path_of a (generated esc_fix (seal_edges_m metaf) h' gens root jd).
+Proof. exact meta_list_refuted. Qed.
+Print Assumptions C17_meta_list_refuted.
+
+(* lkeys metaf 0 0 l = the key of each element of l.  The keys of the unflagged elements are the keys
+   they have in the list without the flagged ones, namely 0, 1, 2, ...: dropping or inserting flagged
+   elements moves nothing                                                                       *)
+Theorem C17_meta_list_elements_irrelevant : forall metaf l,
+  let unflagged := fun x => negb (flagged metaf x) in
+  map fst (filter (fun kx => unflagged (snd kx)) (combine (lkeys metaf 0 0 l) l))
+  = lkeys metaf 0 0 (filter unflagged l)
+  /\ lkeys metaf 0 0 (filter unflagged l) = map dec (seq 0 (length (filter unflagged l))).
+Proof. exact meta_list_elements_irrelevant. Qed.
+Print Assumptions C17_meta_list_elements_irrelevant.
+
+(* the positions stay unambiguous for every flagging (keys of one list pairwise different) ... *)
+Theorem C17_names_wf_unamb_meta : forall metaf h,
+  names_wf h -> task_targets_cut h -> all_unamb (seal_edges_m metaf) h.
+Proof. exact names_wf_unamb_m. Qed.
+Print Assumptions C17_names_wf_unamb_meta.
+
+(* ... so that with all the repairs (seal_edges_full decls idk metaf: parameters in declaration order,
+   pre-tasks in identifier order, flagged list elements numbered apart, dict entries in key order,
+   keys encoded as one segment) every generated path is inside the job directory and distinct
+   (object, file name) pairs receive distinct paths                                             *)
+Theorem C17_full_inside_distinct : forall decls idk metaf h gens root jd l,
+  names_wf (map (norm_node decls idk) h) -> task_targets_cut (map (norm_node decls idk) h) ->
+  (forall c af, In c gens -> In af c -> plain (snd af) = true) ->
+  generated esc_fix (seal_edges_full decls idk metaf) h gens root jd = Some l ->
+  (forall e, In e l ->
+     exists comps, comps <> [] /\ Forall (fun c => plain c = true) comps /\
+       g_path e = {| p_root := p_root jd; p_parts := p_parts jd ++ comps |}) /\
+  (forall e1 e2, In e1 l -> In e2 l ->
+     (g_node e1, g_file e1) <> (g_node e2, g_file e2) -> g_path e1 <> g_path e2).
+Proof. exact full_inside_distinct. Qed.
+Print Assumptions C17_full_inside_distinct.
+
+Theorem C17_pretask_order_irrelevant_full : forall esc decls idk metaf h h' gens root jd,
+  heap_repre h h' -> pre_ids_distinct idk h ->
+  generated esc (seal_edges_full decls idk metaf) h gens root jd
+  = generated esc (seal_edges_full decls idk metaf) h' gens root jd.
+Proof. exact pretask_order_irrelevant_full. Qed.
+Print Assumptions C17_pretask_order_irrelevant_full.
+
+Theorem C17_assignment_order_irrelevant_full : forall esc decls idk metaf h h' gens root jd,
+  heap_reassigned h h' ->
+  generated esc (seal_edges_full decls idk metaf) h gens root jd
+  = generated esc (seal_edges_full decls idk metaf) h' gens root jd.
+Proof. exact assignment_order_irrelevant_full. Qed.
+Print Assumptions C17_assignment_order_irrelevant_full.
